@@ -580,4 +580,155 @@ theorem first_command_runs_check (r : Run) (c : Cmd) (cs : List Cmd) (hc : c = .
   · next st1 f heq => rw [heq] at h1; exact h1
   · next st1 heq => rw [heq] at h1; exact runCommands_commandsRun_mono r cs _ st1 h1
 
+
+/-! ### exit code 0 in terms of the stage results -/
+
+
+def stepOk (s : Step) : Bool := !s.printerFails && !(s.io = .mainFails) && !(s.hasMap && s.io = .mapFails)
+
+/-- the generate options are usable and no printer / file-system failure occurs -/
+def genOk (r : Run) : Bool :=
+  (r.gen.schemaOutput || r.gen.moduleSpecifier) && !r.gen.runtimeToDts && (genSteps r).all stepOk
+
+theorem runSteps_ok (steps : List Step) (st : St) : (runSteps steps st).2 = none ↔ steps.all stepOk = true := by
+  induction steps generalizing st with
+  | nil => simp [runSteps]
+  | cons s rest ih =>
+    unfold runSteps
+    by_cases h1 : s.printerFails = true
+    · simp [h1, stepOk]
+    · by_cases h2 : s.io = .mainFails
+      · simp [h1, h2, stepOk]
+      · by_cases h3 : s.hasMap = true
+        · by_cases h4 : s.io = .mapFails
+          · simp [h1, h3, h4, stepOk]
+          · simp [h1, h2, h3, h4, stepOk, ih]
+        · simp [h1, h2, h3, stepOk, ih]
+
+theorem genTail_ok (r : Run) (st : St) : (genTail r st).2 = none ↔ genOk r = true := by
+  unfold genTail genOk
+  simp only []
+  by_cases h1 : (!r.gen.schemaOutput && !r.gen.moduleSpecifier) = true
+  · have : (r.gen.schemaOutput || r.gen.moduleSpecifier) = false := by
+      cases h : r.gen.schemaOutput <;> cases h' : r.gen.moduleSpecifier <;> simp_all
+    simp [h1, this]
+  · have : (r.gen.schemaOutput || r.gen.moduleSpecifier) = true := by
+      cases h : r.gen.schemaOutput <;> cases h' : r.gen.moduleSpecifier <;> simp_all
+    by_cases h2 : r.gen.runtimeToDts = true
+    · simp [h1, h2]
+    · simp [h1, h2, this, runSteps_ok]
+
+theorem genTail_resolved (r : Run) (st : St) : (genTail r st).1.resolved = st.resolved := by
+  unfold genTail
+  simp only []
+  split
+  · rfl
+  · split
+    · rfl
+    · exact (runSteps_resolved _ _).1
+
+/-- from a resolved context only `generate` can follow, and each one must succeed -/
+theorem runCommands_resolved_ok (r : Run) (cs : List Cmd) (st : St) (hr : st.resolved = true) :
+    (runCommands r cs st).2 = none ↔ (cs.all (· = Cmd.generate) = true ∧ (cs ≠ [] → genOk r = true)) := by
+  induction cs generalizing st with
+  | nil => simp [runCommands]
+  | cons c cs ih =>
+    unfold runCommands
+    cases c with
+    | check => simp [runCommand, runCheck, hr]
+    | other n => simp [runCommand]
+    | generate =>
+      have hg : runCommand r .generate st = genTail r st := by simp [runCommand, runGenerate, hr]
+      rw [hg]
+      have hres := genTail_resolved r st
+      have hok := genTail_ok r st
+      rcases hq : genTail r st with ⟨st1, _ | f⟩
+      · rw [hq] at hres hok
+        simp only []
+        rw [ih st1 (by rw [← hr]; exact hres)]
+        have : genOk r = true := hok.mp rfl
+        simp [this]
+      · rw [hq] at hok
+        have : ¬ (genOk r = true) := fun h => by have := hok.mpr h; cases this
+        simp [this]
+
+/-- a usable command list: `check` or `generate` first, then only `generate` -/
+def cmdsOk : List Cmd → Bool
+  | [] => false
+  | c :: cs => (c = .check || c = .generate) && cs.all (· = Cmd.generate)
+
+/-- no fault anywhere in the stage results that the requested commands look at -/
+def Clean (r : Run) : Prop :=
+  cmdsOk r.cmds = true ∧ (∀ f ∈ r.schemaFiles, f = .ok) ∧ (∀ f ∈ r.opFiles, f.parse = .ok) ∧
+  checkImpl r = [] ∧ (Cmd.generate ∈ r.cmds → genOk r = true)
+
+theorem runCommands_init_ok (r : Run) (cs : List Cmd) :
+    (runCommands r cs St.init).2 = none ↔
+      (cs = [] ∨ (cmdsOk cs = true ∧ checkImpl r = [] ∧ (Cmd.generate ∈ cs → genOk r = true))) := by
+  cases cs with
+  | nil => simp [runCommands]
+  | cons c cs =>
+    have hcheck : checkImpl r = [] → runCheck r St.init = ({ St.init with commandsRun := [.check], resolved := true }, none) := by
+      intro h; simp [runCheck, St.init, h]
+    have hcheck' : checkImpl r ≠ [] → ∃ st1 f, runCheck r St.init = (st1, some f) := by
+      intro h
+      have : (checkImpl r).isEmpty = false := by simpa using h
+      exact ⟨_, _, by simp only [runCheck, St.init, Bool.false_eq_true, if_false, this]; rfl⟩
+    unfold runCommands
+    cases c with
+    | other n => simp [runCommand, cmdsOk]
+    | check =>
+      by_cases hc : checkImpl r = []
+      · have : runCommand r .check St.init = ({ St.init with commandsRun := [.check], resolved := true }, none) := hcheck hc
+        rw [this]
+        simp only []
+        rw [runCommands_resolved_ok r cs _ rfl]
+        simp only [cmdsOk, hc, List.mem_cons]
+        constructor
+        · rintro ⟨h1, h2⟩
+          right
+          refine ⟨by simpa using h1, trivial, ?_⟩
+          rintro (h | h)
+          · cases h
+          · exact h2 (by intro e; rw [e] at h; cases h)
+        · rintro (h | ⟨h1, _, h3⟩)
+          · cases h
+          · refine ⟨by simpa using h1, ?_⟩
+            intro hne
+            cases cs with
+            | nil => exact absurd rfl hne
+            | cons x xs =>
+              have hx : x = Cmd.generate := by simp at h1; exact h1.1
+              exact h3 (Or.inr (by simp [hx]))
+      · obtain ⟨st1, f, hq⟩ := hcheck' hc
+        have : runCommand r .check St.init = (st1, some f) := hq
+        rw [this]
+        simp [hc]
+    | generate =>
+      by_cases hc : checkImpl r = []
+      · have hg : runCommand r .generate St.init = genTail r { St.init with commandsRun := [.check], resolved := true } := by
+          simp only [runCommand, runGenerate, St.init, Bool.false_eq_true, if_false]
+          have := hcheck hc
+          simp only [St.init] at this
+          rw [this]
+        rw [hg]
+        have hres := genTail_resolved r { St.init with commandsRun := [.check], resolved := true }
+        have hok := genTail_ok r { St.init with commandsRun := [.check], resolved := true }
+        rcases hq : genTail r { St.init with commandsRun := [.check], resolved := true } with ⟨st1, _ | f⟩
+        · rw [hq] at hres hok
+          simp only []
+          rw [runCommands_resolved_ok r cs st1 hres]
+          have hgo : genOk r = true := hok.mp rfl
+          simp [cmdsOk, hc, hgo]
+        · rw [hq] at hok
+          have hgo : ¬ (genOk r = true) := fun h => by have := hok.mpr h; cases this
+          simp [hgo]
+      · obtain ⟨st1, f, hq⟩ := hcheck' hc
+        have : runCommand r .generate St.init = (st1, some f) := by
+          simp only [runCommand, runGenerate, St.init, Bool.false_eq_true, if_false]
+          simp only [St.init] at hq
+          rw [hq]
+        rw [this]
+        simp [hc]
+
 end NitroVerif.Cli
